@@ -1385,7 +1385,48 @@ fn install_global(out: &mut Out, workers: Workers) -> World {
     w
 }
 
+/// (round 4, after seed C19-8) keys that are equal although their labels were given in another order, INCLUDING two labels
+/// that share one name (`Key` equality treats a pair of labels as unordered by the whole label): registered and updated
+/// through both spellings they are ONE metric — one snapshot entry, in first-registration position, holding the fold of
+/// all updates. Oracle only (the model's key identity is defined for pairwise distinct label names).
+fn same_name_label_pairs(out: &mut Out) {
+    use metrics::Label;
+    for (i, (l1, l2)) in [(("a", "1"), ("a", "2")), (("a", "2"), ("a", "1")), (("x", "1"), ("y", "1")), (("le", ""), ("le", "x"))].iter().enumerate() {
+        out.case(&format!("same-name label pair {}", i));
+        let rec = DebuggingRecorder::new();
+        let snap = rec.snapshotter();
+        let k1 = Key::from_parts("pair", vec![Label::new(l1.0, l1.1), Label::new(l2.0, l2.1)]);
+        let k2 = Key::from_parts("pair", vec![Label::new(l2.0, l2.1), Label::new(l1.0, l1.1)]);
+        let other = Key::from_name("between");
+        metrics::with_local_recorder(&rec, || {
+            let m = metrics::Metadata::new("t", metrics::Level::INFO, None);
+            metrics::with_recorder(|r| r.register_counter(&k1, &m)).increment(5);
+            metrics::with_recorder(|r| r.register_counter(&other, &m)).increment(1);
+            metrics::with_recorder(|r| r.register_counter(&k2, &m)).increment(7);
+            metrics::with_recorder(|r| r.register_histogram(&k1, &m)).record(1.0);
+            metrics::with_recorder(|r| r.register_histogram(&k2, &m)).record(2.0);
+        });
+        let v = snap.snapshot().into_vec();
+        let counters: Vec<_> = v.iter().filter(|(ck, _, _, _)| ck.kind() == metrics_util::MetricKind::Counter).collect();
+        let hists: Vec<_> = v.iter().filter(|(ck, _, _, _)| ck.kind() == metrics_util::MetricKind::Histogram).collect();
+        let ok = k1 == k2
+            && counters.len() == 2
+            && counters[0].0.key() == &k1
+            && matches!(counters[0].3, metrics_util::debugging::DebugValue::Counter(12))
+            && hists.len() == 1
+            && matches!(&hists[0].3, metrics_util::debugging::DebugValue::Histogram(h) if h.len() == 2);
+        out.count("same-name label pairs");
+        if !ok {
+            out.oracle_fail(
+                "equal keys whose labels were given in another order (incl. two labels sharing a name) are not ONE metric in the snapshot",
+                &format!("labels {:?} / {:?}: snapshot {:?}", l1, l2, v.iter().map(|(ck, _, _, val)| format!("{:?} {:?} = {:?}", ck.kind(), ck.key(), val)).collect::<Vec<_>>()),
+            );
+        }
+    }
+}
+
 pub fn run(cfg: &Cfg, out: &mut Out) {
+    same_name_label_pairs(out);
     quiet_scope_panics();
     let mut w = install_global(out, Workers::new(2));
     for (i, (nrec, script)) in corpus().into_iter().enumerate() {
